@@ -336,7 +336,7 @@ func (u *Universe) sortOf(t types.Type) string {
 			return n
 		}
 		n := fmt.Sprintf("anon%d", len(u.anon))
-		u.anon[k] = n
+		u.anon[k] = "S_" + sanitize(n)
 		return u.structSort(n, tt)
 	case *types.Array:
 		return "(Array Int " + u.sortOf(tt.Elem()) + ")"
